@@ -205,18 +205,62 @@ def _patch_crosshair():
             else:
                 return NotImplemented
             mypoints = self._codepoints
-            with ResumedTracing():
-                if len(mypoints) != len(otherpoints):
-                    return False
-                for i in range(len(mypoints)):
-                    a, b = mypoints[i], otherpoints[i]
-                    if a is b:
-                        continue
+            n1, n2 = _concrete_len(mypoints), _concrete_len(otherpoints)
+            if n1 is None or n2 is None:
+                # some length is symbolic: compare under tracing (slow path)
+                with ResumedTracing():
+                    if len(mypoints) != len(otherpoints):
+                        return False
+                    for i in range(len(mypoints)):
+                        a, b = mypoints[i], otherpoints[i]
+                        if a is b:
+                            continue
+                        if a != b:
+                            return False
+                    return True
+            if n1 != n2:
+                return False
+            # concrete pairs are compared natively; only pairs with a symbolic code point go to the solver
+            pending = []
+            for i in range(n1):
+                a, b = mypoints[i], otherpoints[i]
+                if a is b:
+                    continue
+                if type(a) is int and type(b) is int:
                     if a != b:
                         return False
-                return True
+                else:
+                    pending.append((a, b))
+            with ResumedTracing():
+                for a, b in pending:
+                    if a != b:
+                        return False
+            return True
 
     LazyIntSymbolicStr.__eq__ = str_eq
+
+    # Engine optimisation (no change of meaning): a slice of a symbolic string whose code points are all concrete ints is
+    # returned as a native str.  Substrings such as a reference label `state.src[a:b]` then go through lower()/upper()/re at
+    # native speed instead of CrossHair's symbolic string algorithms (27 s per call for normalizeReference).
+    orig_getitem = LazyIntSymbolicStr.__getitem__
+
+    def str_getitem(self, i):
+        ret = orig_getitem(self, i)
+        with NoTracing():
+            if isinstance(i, slice) and type(ret) is LazyIntSymbolicStr:
+                pts = ret._codepoints
+                n = _concrete_len(pts)
+                if n is not None and n <= 4096:
+                    out = []
+                    for k in range(n):
+                        c = pts[k]
+                        if type(c) is not int:
+                            return ret
+                        out.append(c)
+                    return "".join(map(chr, out))
+        return ret
+
+    LazyIntSymbolicStr.__getitem__ = str_getitem
 
     # CrossHair bug: ShellMutableMap (the model behind dict(...) under tracing) iterates overwritten keys last, whereas a real
     # dict keeps the position of a key whose value is replaced (Token.attrSet("alt", ...) at render time reordered attributes).
@@ -269,6 +313,22 @@ def _install_quote_model():
         return real(string, *a, **kw)
 
     me.encode_uri_component = quote_model
+
+
+def _concrete_len(pts):
+    """Length of a CrossHair sequence if it is known without consulting the solver, else None."""
+    from crosshair.simplestructs import SequenceConcatenation, SliceView
+
+    if isinstance(pts, (list, tuple)):
+        return len(pts)
+    if isinstance(pts, SliceView):
+        if type(pts.start) is int and type(pts.stop) is int:
+            return max(0, pts.stop - pts.start)
+        return None
+    if isinstance(pts, SequenceConcatenation):
+        a, b = _concrete_len(pts._first), _concrete_len(pts._second)
+        return None if a is None or b is None else a + b
+    return None
 
 
 _FIXED_SEARCH_SRC = '''
